@@ -403,3 +403,35 @@ Theorem C03_node_count_canonical_sub_level_iff : forall s, BddOK s -> forall r p
   (rlevel s x = L <-> depends_on (sub phi L p) L).
 Proof. exact sub_level_iff. Qed.
 Print Assumptions C03_node_count_canonical_sub_level_iff.
+
+(* the textbook count: canon_size_bdd n phi = (sum over the levels L of the number of distinct pairs of
+   cofactor tables, w.r.t. level L, of the subfunctions of phi with the levels above L fixed, whose two
+   components differ) + (number of distinct values of phi); no diagram is built.  It equals the node
+   count of every reference of every well-formed BDD table denoting phi. *)
+From OxiVerif Require Import DD.BuildCanonSize.
+Theorem C03_node_count_canonical_size : forall s, BddOK s -> forall r phi, Den s r phi ->
+  count_reach s (E r) = canon_size_bdd (nlevels s) phi.
+Proof. exact bdd_count_is_canon_size. Qed.
+Print Assumptions C03_node_count_canonical_size.
+
+Theorem C03_node_count_canonical_size_edge : forall s e, BddOK s -> ref_ok s (eref e) ->
+  count_reach s e = canon_size_bdd (nlevels s) (cfun_of s e).
+Proof. exact bdd_node_count_canon_size. Qed.
+Print Assumptions C03_node_count_canonical_size_edge.
+
+Theorem C03_node_count_canonical_size_build : forall v2l l2v f, order_ok v2l l2v ->
+  exists s e, build_bdd v2l l2v f = Some (s, e) /\ BddOK s /\
+    count_reach s e = canon_size_bdd (length l2v) (fun c => f (ctrunc (length l2v) c)).
+Proof. exact build_bdd_canon_size. Qed.
+Print Assumptions C03_node_count_canonical_size_build.
+
+(* the tables list exactly the values on the merged choices *)
+Theorem C03_node_count_canonical_size_table : forall cnt lvl f c0 b,
+  In b (table lvl cnt f c0) <-> exists q, bchoice q /\ b = f (cmerge lvl cnt c0 q).
+Proof. exact table_In. Qed.
+Print Assumptions C03_node_count_canonical_size_table.
+
+Theorem C03_node_count_canonical_size_subpairs : forall d lvl k f c0 pr,
+  In pr (subpairs lvl d k f c0) <-> exists q, bchoice q /\ pr = pair_at lvl d k f c0 q.
+Proof. exact subpairs_In. Qed.
+Print Assumptions C03_node_count_canonical_size_subpairs.
